@@ -118,12 +118,12 @@ def session(concepts, seed, sid):
                 args = (rng.choice(pool_o), rng.sample(pool_p, rng.randint(2, 4)))
                 if step % 2:      # an ordered, re-iterable, non-list container of names
                     args = (args[0], dict.fromkeys(args[1] + ['-fresh%d' % step, '-fresher%d' % step]).keys())
-                rec(f'add_object{args[0]}', lambda: (d.add_object(*args), state()))
+                rec(f'add_object {args[0]}', lambda: (d.add_object(*args), state()))
             elif op == 3:
                 args = (rng.choice(pool_p), tuple(rng.sample(pool_o, rng.randint(2, 4))))
                 if step % 2:
                     args = (args[0], dict.fromkeys(list(args[1]) + ['fresh%d!' % step, 'fresher%d!' % step]))
-                rec(f'add_property{args[0]}', lambda: (d.add_property(*args), state()))
+                rec(f'add_property {args[0]}', lambda: (d.add_property(*args), state()))
             elif op == 4:
                 o = rng.choice(others)
                 rec('union_update-ignore', lambda: (d.union_update(o, ignore_conflicts=True), state()))
